@@ -89,6 +89,15 @@ func checkC16(cx *Ctx, r *Report) {
 		r.Fail("R-SELECT", "GetAcsUrlAndBindingForResponse", "", "anchor function not found")
 		return
 	}
+	// the selection moved behind the exported function (`return selectConsumerEndpoint(acs, binding)`, possibly in
+	// another package): what is analysed is the function that does the work, with the same parameters in the same order
+	for hops := 0; hops < 3; hops++ {
+		g := plainDelegate(fn)
+		if g == nil {
+			break
+		}
+		fn = g
+	}
 	rets := returnsOf(fn)
 	if len(rets) == 0 {
 		r.Undecided("R-SELECT", "GetAcsUrlAndBindingForResponse", w.FnPos(fn), "no return found")
@@ -108,7 +117,7 @@ func checkC16(cx *Ctx, r *Report) {
 	for _, s := range s1 {
 		by1[s.pred] = s.val
 	}
-	lvf := cx.newVFlow("GetAcsUrlAndBindingForResponse", fn)
+	lvf := cx.newVFlow("GetAcsUrlAndBindingForResponse:"+w.FuncKey(fn), fn)
 	helpers := cx.xsBoolHelpers()
 	res0phis := map[ssa.Value]bool{}
 	for _, ret := range rets {
@@ -145,7 +154,7 @@ func checkC16(cx *Ctx, r *Report) {
 		ll := lvf.objLabels(slot0.X, 0)
 		okList := len(ll) > 0
 		for l := range ll {
-			if l != "param:provider.GetAcsUrlAndBindingForResponse/#0" {
+			if l != "param:"+w.FuncKey(fn)+"/#0" {
 				okList = false
 			}
 		}
@@ -531,4 +540,54 @@ func isRangeIndex(v ssa.Value, fx *Facts) bool {
 		}
 	}
 	return false
+}
+
+// plainDelegate: fn does nothing but hand its parameters, in order, to one module function and return all of that
+// function's results: the function. nil otherwise.
+func plainDelegate(fn *ssa.Function) *ssa.Function {
+	if fn == nil || len(fn.Blocks) != 1 {
+		return nil
+	}
+	var call *ssa.Call
+	for _, in := range fn.Blocks[0].Instrs {
+		switch x := in.(type) {
+		case *ssa.Call:
+			if call != nil {
+				return nil
+			}
+			call = x
+		case *ssa.Extract, *ssa.Return, *ssa.DebugRef:
+		default:
+			return nil
+		}
+	}
+	if call == nil {
+		return nil
+	}
+	g := calleeOf(call)
+	if g == nil || g.Blocks == nil || g.Pkg == nil || !isModulePath(g.Pkg.Pkg.Path()) || len(call.Call.Args) != len(fn.Params) || len(g.Params) != len(fn.Params) {
+		return nil
+	}
+	for i, a := range call.Call.Args {
+		if a != ssa.Value(fn.Params[i]) {
+			return nil
+		}
+	}
+	rets := returnsOf(fn)
+	if len(rets) != 1 {
+		return nil
+	}
+	for i, rv := range rets[0].Results {
+		if len(rets[0].Results) == 1 {
+			if rv != ssa.Value(call) {
+				return nil
+			}
+			continue
+		}
+		ex, ok := rv.(*ssa.Extract)
+		if !ok || ex.Tuple != ssa.Value(call) || ex.Index != i {
+			return nil
+		}
+	}
+	return g
 }
